@@ -880,6 +880,13 @@ def _gen_c15_explicit(rng, q):
         variants += [data[:cut] + bytes([0xf0 | rng.randrange(0, 15)]) + bytes(rng.randrange(256) for _ in range(rng.randrange(0, 4))),
                      data[:cut] + bytes([rng.randrange(0, 15) << 4 | 0x0f]) + bytes(rng.randrange(0, 3)),
                      data[:cut] + bytes(rng.randrange(256) for _ in range(rng.randrange(1, 5)))]
+        # header bytes that announce something else than what follows: every value of the first byte's nibbles (version, IPv4
+        # header length with options), other next-header / protocol numbers, lengths, and one random byte anywhere in the headers
+        if data:
+            variants += [bytes([data[0] & 0xf0 | rng.randrange(16)]) + data[1:], bytes([rng.randrange(16) << 4 | data[0] & 0x0f]) + data[1:]]
+            for _ in range(3):
+                k = rng.randrange(0, min(len(data), 60))
+                variants.append(data[:k] + bytes([rng.choice([0, 1, 6, 17, 41, 132, 255, rng.randrange(256)])]) + data[k + 1:])
         if cfg != 'UDP':
             base = {'IPv6-UDP-CoAP': 48, 'IPv4-UDP-CoAP': 28, 'CoAP': 0}[cfg]
             for a in (0xf1, 0xf7, 0xe0, 0xd0, 0x1f):
